@@ -1,0 +1,48 @@
+//go:build verif
+
+// Contracts for package aggregations, checked by /verif/bin/govc (comment-only file).
+// Floats are mathematical reals here (summation order and rounding are not modelled).
+package aggregations
+
+//@ fileprops C16
+
+//@ func search.NumericValuesSource.Numbers(recv, d) (vals)
+//@   interface
+//@   pure
+
+// sum / min / max: what one value does to the running result
+//@ func Sum$1
+//@   requires s != nil
+//@   ensures s.val == old(s.val) + val
+//@ func Min$1
+//@   requires s != nil
+//@   ensures s.val == ite(val < old(s.val), val, old(s.val))
+//@ func MaxStartingAt$1
+//@   requires s != nil
+//@   ensures s.val == ite(val > old(s.val), val, old(s.val))
+
+// fsum(a, o, k): sum of the first k values of a float slice
+//@ spec fn rec fsum(a map[int]real, o int, k int) real = ite(k <= 0, 0.0, fsum(a, o, k - 1) + a[o + k - 1])
+
+// weighted average: every value of the hit contributes value*weight to the numerator and weight
+// to the denominator; the weight is the hit's first weight value, or 1
+//@ func WeightedAvgCalculator.Consume
+//@   nopanic nonil
+//@   infer
+//@   requires a != nil
+//@   loop 1
+//@     invariant [denominator-counts-every-value] a.weights == old(a.weights) + weight * real(rangeindex + 1)
+
+//@ func WeightedAvgCalculator.Value
+//@   requires a != nil
+//@   ensures result == a.val / a.weights
+
+//@ func WeightedAvgCalculator.Merge
+//@   requires a != nil
+
+// a range bucket is fed a hit only for a value inside [low, high)
+//@ func RangeCalculator.Consume
+//@   requires b != nil && len(b.bucketCalculators) == len(b.ranges)
+//@   requires forall k int :: 0 <= k && k < len(b.ranges) ==> b.ranges[k] != nil
+//@   check index
+//@   at call Consume: assert [fed-only-when-in-range] val >= rang.low && val < rang.high
